@@ -9,6 +9,8 @@ def quiet(name, prop, *edits, **kw):
     W.append(dict(name=name, prop=prop, kind="quiet", edits=[dict(file=e[0], old=e[1], new=e[2], all=(len(e)>3 and e[3])) for e in edits], **kw))
 def seeded(name, prop, rule, patch, **kw):
     W.append(dict(name=name, prop=prop, kind="fire", expect_rule=rule, patch=patch, edits=[], **kw))
+def refactor(name, patch, **kw):
+    W.append(dict(name=name, prop="all", kind="quiet", patch=patch, edits=[], **kw))
 for f in sorted(glob.glob(os.path.join(here,"defs","*.py"))):
     exec(open(f).read())
 names=[w["name"] for w in W]
